@@ -43,6 +43,22 @@ fn before_commit(ctx: &Ctx, s: &WriteSpec) {
             let _ = std::fs::remove_dir_all(ctx.cache.join("content-v2"));
         }
     }
+    if s.aged_hours > 0 {
+        let to = std::time::SystemTime::now() - std::time::Duration::from_secs(s.aged_hours as u64 * 3600);
+        if let Ok(rd) = std::fs::read_dir(ctx.cache.join("tmp")) {
+            for e in rd.flatten() {
+                if let Ok(f) = std::fs::OpenOptions::new().write(true).open(e.path()) {
+                    let _ = f.set_modified(to);
+                }
+            }
+        }
+        // another writer comes and goes on the same cache while this one is still open
+        let other = other_blob(ctx, s.blob);
+        if let Ok(mut w) = cacache::WriteOpts::new().open_hash_sync(&ctx.cache) {
+            let _ = w.write_all(&other);
+            let _ = w.commit();
+        }
+    }
     COMMIT_T0.with(|c| c.set(Some(now_ms())));
 }
 
@@ -126,6 +142,8 @@ pub struct Ctx<'a> {
     pub blobs: &'a [Blob],
     bytes: RefCell<HashMap<usize, Arc<Vec<u8>>>>,
     pub dest_n: Cell<usize>,
+    /// (device, inode) of the directory `cache` named when the context was made
+    pub cache_id: Option<(u64, u64)>,
 }
 
 pub const PREEXISTING: &[u8] = b"PRE-EXISTING DESTINATION CONTENT\n";
@@ -140,7 +158,22 @@ pub fn siblings(dest: &Path) -> Vec<PathBuf> {
 
 impl<'a> Ctx<'a> {
     pub fn new(cache: PathBuf, scratch: PathBuf, keys: &'a [String], blobs: &'a [Blob]) -> Ctx<'a> {
-        Ctx { cache, scratch, keys, blobs, bytes: RefCell::new(HashMap::new()), dest_n: Cell::new(0) }
+        use std::os::unix::fs::MetadataExt;
+        let cache_id = std::fs::metadata(&cache).ok().filter(|m| m.is_dir()).map(|m| (m.dev(), m.ino()));
+        Ctx { cache, scratch, keys, blobs, bytes: RefCell::new(HashMap::new()), dest_n: Cell::new(0), cache_id }
+    }
+    /// The path given as the cache still names the directory it named at the start (a call
+    /// may empty that directory, it may not replace it — or the link leading to it — by another).
+    pub fn cache_is_same_dir(&self) -> Result<(), String> {
+        use std::os::unix::fs::MetadataExt;
+        if let Some(id) = self.cache_id {
+            match std::fs::metadata(&self.cache) {
+                Ok(m) if (m.dev(), m.ino()) == id => {}
+                Ok(m) => return Err(format!("the cache path {} no longer names the directory it named before (inode {} -> {})", self.cache.display(), id.1, m.ino())),
+                Err(_) => {}
+            }
+        }
+        Ok(())
     }
     pub fn blob(&self, i: usize) -> Arc<Vec<u8>> {
         self.bytes.borrow_mut().entry(i).or_insert_with(|| Arc::new(self.blobs[i].bytes())).clone()
@@ -246,6 +279,26 @@ pub fn declared_integrity_ex(d: IntegDecl, algo: Algo, data: &[u8], other: &[u8]
         }
         IntegDecl::MultiAllWrong => Some(format!("{} {}", wrong(1), wrong(2))),
         IntegDecl::DigestOfOtherBlob => Some(blob::sri(algo, other)),
+        IntegDecl::WrongTail => {
+            let mut raw = blob::digest_raw(algo, data);
+            let n = raw.len();
+            raw[n - 1] ^= 0x10;
+            Some(blob::sri_from_raw(algo, &raw))
+        }
+        IntegDecl::CaseToggled => {
+            let good = blob::sri(algo, data);
+            let (head, b64) = good.split_once('-').unwrap();
+            let mut chars: Vec<char> = b64.chars().collect();
+            // not the last group: its low bits must stay canonical
+            let lim = chars.len().saturating_sub(4);
+            match chars[..lim].iter().position(|c| c.is_ascii_alphabetic()) {
+                Some(i) => {
+                    chars[i] = if chars[i].is_ascii_uppercase() { chars[i].to_ascii_lowercase() } else { chars[i].to_ascii_uppercase() };
+                    Some(format!("{head}-{}", chars.into_iter().collect::<String>()))
+                }
+                None => Some(wrong(5)),
+            }
+        }
         IntegDecl::MultiTwoAlgos => {
             if data.len() % 2 == 0 {
                 Some(format!("{} {}", blob::sri(algo, data), blob::sri(other_algo(algo), data)))
@@ -279,10 +332,40 @@ pub fn cut_chunks<'d>(data: &'d [u8], chunks: &[usize]) -> Vec<&'d [u8]> {
     out
 }
 
+/// `RemoveOpts` with the flag set once or — for odd key indices — twice (the last call wins).
+fn remove_opts(key: usize, fully: bool) -> cacache::RemoveOpts {
+    let o = cacache::RemoveOpts::new();
+    if key % 2 == 1 {
+        o.remove_fully(!fully).remove_fully(fully)
+    } else {
+        o.remove_fully(fully)
+    }
+}
+
 fn build_opts(ctx: &Ctx, s: &WriteSpec, data: &[u8]) -> cacache::WriteOpts {
     // SHA-256 is the documented default: every other SHA-256 spec leaves the algorithm unset
     let mut o = cacache::WriteOpts::new();
-    if !(s.algo == Algo::Sha256 && (data.len() + s.chunks.len()) % 2 == 0) {
+    if s.decoy_opts {
+        // every option once with a value that must not survive the second call
+        // (only options the spec sets: a builder option cannot be unset)
+        o = o.algorithm(other_algo(s.algo).to_lib());
+        if s.declare != Declare::None {
+            o = o.size(data.len() + 77);
+        }
+        if s.time.is_some() {
+            o = o.time(12345);
+        }
+        if s.metadata.is_some() {
+            o = o.metadata(serde_json::json!({"decoy": true}));
+        }
+        if s.raw_metadata.is_some() {
+            o = o.raw_metadata(vec![0xde, 0xc0]);
+        }
+        if s.integ != IntegDecl::None {
+            o = o.integrity(blob::sri(s.algo, b"decoy").parse().unwrap());
+        }
+    }
+    if s.decoy_opts || !(s.algo == Algo::Sha256 && (data.len() + s.chunks.len()) % 2 == 0) {
         o = o.algorithm(s.algo.to_lib());
     }
     if let Some(n) = declared_size(s.declare, data.len()) {
@@ -867,7 +950,7 @@ fn do_sync(ctx: &Ctx, op: &Op) -> Out {
         Op::Remove { key } => unit(cacache::remove_sync(cache, ctx.key(*key))),
         Op::RemoveHash { addr } => unit(cacache::remove_hash_sync(cache, &ctx.integrity_of(*addr))),
         Op::RemoveOpts { key, fully } => {
-            unit(cacache::RemoveOpts::new().remove_fully(*fully).remove_sync(cache, ctx.key(*key)))
+            unit(remove_opts(*key, *fully).remove_sync(cache, ctx.key(*key)))
         }
         Op::Clear => unit(cacache::clear_sync(cache)),
         Op::IdxInsert { key, fields } => match cacache::index::insert(cache, ctx.key(*key), idx_opts(ctx, fields)) {
@@ -957,7 +1040,7 @@ async fn do_async(ctx: &Ctx<'_>, op: &Op) -> Out {
         Op::Remove { key } => unit(cacache::remove(cache, ctx.key(*key)).await),
         Op::RemoveHash { addr } => unit(cacache::remove_hash(cache, &ctx.integrity_of(*addr)).await),
         Op::RemoveOpts { key, fully } => {
-            unit(cacache::RemoveOpts::new().remove_fully(*fully).remove(cache, ctx.key(*key)).await)
+            unit(remove_opts(*key, *fully).remove(cache, ctx.key(*key)).await)
         }
         Op::Clear => unit(cacache::clear(cache).await),
         Op::IdxInsert { key, fields } => {
